@@ -49,6 +49,8 @@ class IfWriteHandler(AbstractWriteHandler):
     ):
         super().__init__(start_vertex, decompiler, parent)
         self.ended_on_jump = True
+        # The vertex the first elseif-branch that does not leave by a jump continues at (the end label of the if)
+        self._v_after_elseif_branches: Vertex | None = None
 
     def write_content(self) -> Vertex | None:
         op: SsbLabelJump = self.start_vertex["op"]
@@ -114,6 +116,10 @@ class IfWriteHandler(AbstractWriteHandler):
                     # The if-branch left by a jump and there is no else-branch: when the condition does not hold,
                     # control continues at the end label of the if; it is written (or jumped to) next.
                     return else_edge.target_vertex
+                if v_after_else_branch is None:
+                    # Both the if-branch and the else-branch left by a jump: an elseif-branch may still continue
+                    # at the end label of the if.
+                    return self._v_after_elseif_branches
                 return v_after_else_branch
             return v_after_if_branch
 
@@ -203,13 +209,15 @@ class IfWriteHandler(AbstractWriteHandler):
 
                 with Blk(self.decompiler):
                     # Handle elseif-branch
-                    BlockWriteHandler(
+                    v_after_elseif_branch = BlockWriteHandler(
                         if_edge.target_vertex,
                         self.decompiler,
                         self,
                         self.start_vertex,
                         check_end_block=self.check_end_block,
                     ).write_content()
+                    if self._v_after_elseif_branches is None:
+                        self._v_after_elseif_branches = v_after_elseif_branch
                 next_vertex_ends = isinstance(else_edge.target_vertex["op"], SsbLabel) and any(
                     isinstance(mx, IfEnd) and m.if_id == mx.if_id for mx in else_edge.target_vertex["op"].markers
                 )
